@@ -34,9 +34,9 @@ var negZero = math.Copysign(0, -1)
 // LeafGo maps kind -> token -> Go value of exactly that basic type.
 var LeafGo = map[string]map[string]interface{}{
 	"bool":   {"false": false, "true": true},
-	"int":    {"0": int(0), "1": int(1), "m1": int(-1), "max": int(math.MaxInt64), "min": int(math.MinInt64)},
+	"int":    {"0": int(0), "1": int(1), "m1": int(-1), "max": int(math.MaxInt64), "min": int(math.MinInt64), "hi1": int(1)<<40 + 1},
 	"int8":   {"0": int8(0), "1": int8(1), "m1": int8(-1), "max": int8(math.MaxInt8), "min": int8(math.MinInt8)},
-	"int64":  {"0": int64(0), "1": int64(1), "m1": int64(-1), "max": int64(math.MaxInt64), "min": int64(math.MinInt64)},
+	"int64":  {"0": int64(0), "1": int64(1), "m1": int64(-1), "max": int64(math.MaxInt64), "min": int64(math.MinInt64), "hi1": int64(1)<<40 + 1},
 	"uint8":  {"0": uint8(0), "1": uint8(1), "97": uint8(97), "255": uint8(255)},
 	"uint64": {"0": uint64(0), "1": uint64(1), "big": uint64(1) << 63, "max": uint64(math.MaxUint64)},
 	"float32": {"pz": float32(0), "1": float32(1), "m1.5": float32(-1.5), "max": float32(math.MaxFloat32),
@@ -45,7 +45,8 @@ var LeafGo = map[string]map[string]interface{}{
 		"half": float64(0.5), "msmall": float64(-math.SmallestNonzeroFloat64), "nz": negZero},
 	"complex128": {"z": complex(0, 0), "a": complex(1, 2), "b": complex(1, 3), "c": complex(2, 0),
 		"d": complex(-1.5, 5), "zni": complex(0, negZero), "znr": complex(negZero, 0)},
-	"string": {"empty": "", "a": "a", "b": "b", "Aa": "Aa", "BB": "BB", "quote": "a\"\n", "eacute": "é", "xff": "\xff"},
+	"string": {"empty": "", "a": "a", "b": "b", "Aa": "Aa", "BB": "BB", "quote": "a\"\n", "eacute": "é", "xff": "\xff",
+		"pfmt": "a%sb", "pct": "100%", "ppd": "%%d"},
 }
 
 // goEqLess applies Go's own == and the natural < of the kind (false<true for
